@@ -1,5 +1,6 @@
 import Driver.Util
 import DiskfsModel.Model.ReadSeek
+import DiskfsModel.Generated.ReadSeek
 namespace Driver.ReadSeek
 open Diskfs Diskfs.ReadSeek Diskfs.Spec Driver
 
@@ -8,7 +9,9 @@ def flag (cfg : String) (name : String) : Bool :=
 
 def parseCfg (s : String) : Cfg :=
   { fatClamp := flag s "clamp", sqEndAdd := flag s "sqend", e4Closed := flag s "e4closed",
-    e4SkipLe := flag s "e4skip", sqEmptyOk := flag s "sqempty" }
+    e4SkipLe := flag s "e4skip", sqEmptyOk := flag s "sqempty",
+    -- not probed by the engine (it builds no out-of-order extent lists): read from file.go on every run
+    e4SkipNeg := Diskfs.Generated.ReadSeek.e4ReadSkipsNegative }
 
 def parseExts (s : String) : List Ext :=
   if s == "-" || s == "" then []
